@@ -1,6 +1,7 @@
 package main
 
 import (
+	"github.com/GuanceCloud/platypus/pkg/engine"
 	"github.com/GuanceCloud/platypus/pkg/inimpl/guancecloud/funcs"
 	"github.com/GuanceCloud/platypus/pkg/parser"
 	"go.uber.org/zap"
@@ -27,4 +28,20 @@ var disturbN int
 func disturbParser() {
 	disturbN++
 	_, _ = parser.ParsePipeline("junk.p", disturbTexts[disturbN%len(disturbTexts)])
+}
+
+// disturbChecker: before a load whose verdict is judged, load scripts that the check pass rejects at an offender sitting inside
+// loop bodies, loop clauses, branches and nested blocks (and one that links to a missing script), on both interpreters: whatever
+// the checker keeps between loads (pooled contexts, depth counters, scope stacks) is then in the state an earlier failure left.
+var disturbScripts = []string{"for v in [1] { y = nosuchfn() }", "for i = 0; i < 1; i = nosuchfn() { }", "for ;; { for w in [1] { if w { nosuchfn() } } }",
+	"if 1 { if 2 { x = len() } }", "for v in [1] { for ;; { add_key() } }", "if 0 { } elif 1 { for v in [1] { grok(_, \"%{NOSUCHPAT:x}\") } }",
+	"for v in [1] { break }\nfor ;; { x = [nosuchfn()] }", "add_pattern(\"dp\", \"\\\\d\")\nfor v in [1] { add_pattern(\"dq\", \"%{NOSUCHPAT}\") }"}
+
+var disturbC int
+
+func disturbChecker() {
+	disturbC++
+	src := disturbScripts[disturbC%len(disturbScripts)]
+	_, _ = engine.ParseScript(map[string]string{"junk.p": src, "junk2.p": "use(\"nowhere.p\")"}, funcs.FuncsMap, funcs.FuncsCheckMap)
+	_, _ = engine.ParseV2("junk.p", src, v2Table(&runObs{}))
 }
